@@ -53,7 +53,7 @@ def setup(ctx):
 def run_case(ctx, rng, index, casedir):
     sit = collections.Counter()
     viol = []
-    big_case = (ctx.tier == "thorough" and index % 40 == 0) or (ctx.tier == "quick" and index == 0)
+    big_case = (ctx.tier == "thorough" and index % 40 == 0) or (ctx.tier == "quick" and index % 160 == 0)
     g = rgfa.gen_rgfa(rng, size="medium" if not big_case else "large", id_style=rng.choice(["s", "name"]))
     if big_case:
         # long nodes so that a 60 kb path exists
@@ -104,6 +104,32 @@ def run_case(ctx, rng, index, casedir):
             r.line = "\t".join(cols)
             recs.append(r)
             sit["threshold_straddling_records"] += 1
+        # supplementary alignments of the reads that are passed through: short slices of the SAME read,
+        # directly after (and once before) the long record, realigned normally
+        out = []
+        for r in recs:
+            if r.qe - r.qs > 60000 and r.read is not None:
+                sup = []
+                for _k in range(2):
+                    span = rng.randint(150, 400)
+                    qs = rng.randint(r.qs, r.qe - span)
+                    s = greads.ReadRec()
+                    s.shared_with, s.owner = r, r
+                    tps = r.ps + (qs - r.qs)  # the long reads of this block are gap-free copies of the path slice
+                    s.name, s.read, s.qs, s.qe, s.ps, s.pe, s.walk = r.name, None, qs, qs + span, tps, tps + span, r.walk
+                    s.target = pseq[tps:tps + span]
+                    if r.read[qs:qs + span] != s.target:
+                        continue  # (a straddling read with an indel before this slice)
+                    ops = greads.fragment(rng, [(span, "=")], p=1.0)
+                    s.true_ops, s.in_cigar = [(span, "=")], greads.cigar_str(ops)
+                    s.line = "\t".join([r.name, str(len(r.read)), str(qs), str(qs + span), "+", rgfa.path_str(r.walk), str(len(pseq)), str(tps), str(tps + span),
+                                        str(sum(n for n, o in ops if o == "=")), str(sum(n for n, _ in ops)), "60", "tp:A:S", f"cg:Z:{s.in_cigar}"])
+                    sup.append(s)
+                    sit["supplementary_of_pass_through_read"] += 1
+                out += ([r] + sup) if (r.name.startswith("pass") or rng.random() < 0.5) else (sup[:1] + [r] + sup[1:])
+            else:
+                out.append(r)
+        recs = out
     else:
         n = rng.randint(3, 25)
         walks = ggaf.make_walks(g, rng, n, maxlen=rng.choice([2, 5, 10]), forced=True)
